@@ -64,7 +64,7 @@ PROPS = {
             "count followed by exactly that many members, read back by the receiver loop": "theorem (full for lawful codecs): section_reads_back",
             "Feed lists only active members other than the receiver": "theorem (full): feed_candidates; 'other than the sender' follows from own-address-never-active (C09/C19 theorems)",
             "custom items length-prefixed": "theorem: custom_item_framing",
-            "peer accepts without Decode/Malformed error": "partial: section_reads_back is the core; whole-datagram acceptance by handle_data is checked by search (a real peer instance handles every emitted datagram) and correspondence",
+            "peer accepts without Decode/Malformed error": "theorem (byte level, any codec that reads back what it wrote, any handler): C07H.wellformed_datagram_is_read_back, broadcast_datagram_is_read_back, bare_datagram_is_read_back (handle_data on header ++ [count ++ members] ++ framed items passes size, header, trailing-byte and member-section stages with exactly these members and this tail, i.e. equals processParsed), C07H.custom_tail_is_delivered (the receive loop hands the handler exactly the items, in order, and can only fail with the handler's own error), section_parses_back; that every emitted datagram has this shape with wire-range fields is the sending-side theorems above plus search (a real peer handles every emitted datagram) and correspondence",
         },
         RULE_HIST + "search: every datagram of every generated history is parsed by an independent grammar parser (written against the doc comment of Header) and fed to a fresh real peer instance with the same codec and packet size; packet sizes swept from just-fits-a-header upwards, all three codecs.",
         ["Codec contract: decode(encode(x) ++ rest) = (x, rest) for u16-range values (proved for the three codecs in C20)"],
